@@ -70,7 +70,7 @@ def run_m6a(rng, tier, case):
     from eaopack.basic_classes import Node, Timegrid
     T = 6 if tier == 'quick' else 8
     freq, unit, stepf = gen.pick(rng, [('h', 'h', 1.), ('h', 'h', 1.), ('30min', 'h', 0.5), ('2h', 'h', 2.), ('h', 'd', 1 / 24.), ('15min', 'min', 15.), ('d', 'h', 24.)])
-    MRs = int(gen.pick(rng, [0, 0, 2, 3, 4])); MDs = int(gen.pick(rng, [0, 0, 2, 3]))
+    MRs = int(gen.pick(rng, [0, 0, 2, 3, 4, 4, T + 1, T + 3])); MDs = int(gen.pick(rng, [0, 0, 2, 3, T + 2]))      # (also limits longer than the horizon)
     Rs, Fs = gen.pick(rng, [(0, 1), (0, 2), (0, 3), (1, 0), (2, 0), (4, 0), (0, 0)])
     if MDs > 1 and not ((Fs == 0) ^ (Rs == 0)):
         Rs, Fs = (0, 2)
@@ -143,6 +143,13 @@ def gen_uc_case(rng, with_profiles):
     fuel = rng.random() < 0.6
     nodes = ['pw'] + (['ht'] if chp else []) + (['fu'] if fuel else [])
     a = gen.gen_plant(rng, g, 'P', nodes, f, 'pc', chp=chp, simple=False, ramp_profiles=with_profiles)      # 'pc': the plant's own variable generation cost
+    if rng.random() < 0.12:
+        # a minimum runtime / downtime that reaches beyond the horizon
+        st_ = float(pd.Timedelta(to_offset(g['freq'])) / pd.Timedelta(1, g['unit']))
+        if a.get('time_already_running'):
+            a['min_runtime'] = gen.r2(st_ * (T + int(rng.integers(1, 4))))
+        elif a.get('time_already_off'):
+            a['min_downtime'] = gen.r2(st_ * (T + int(rng.integers(1, 4))))
     if a['min_cap'] == 0:
         a['min_cap'] = gen.r2(1. * f)
     a['extra_costs'] = gen.pick(rng, [0., 0.5])
